@@ -87,7 +87,7 @@ func genConc9(prop string, seed uint64, tier string) Scenario {
 			sc.Ops = append(sc.Ops, Op{K: "api", T: r.n(napi), P: r.n(numAPI9), M: r.n(4), I: r.n(16), D: r.weighted([]int{8, 4, 4, 3, 2, 2, 1, 1, 1, 1}), X: r.pick(0, 0, 0, 1)})
 		} else {
 			// X=1: the frame arrives at a minute boundary, together with the purge tick
-			sc.Ops = append(sc.Ops, Op{K: "frame", T: 20 + r.n(nnodes), P: r.n(9), M: r.n(4), I: r.n(16), N: r.n(64), D: r.weighted([]int{6, 4, 4, 3, 3, 2, 2, 1, 1, 2}), X: r.pick(0, 0, 0, 1)})
+			sc.Ops = append(sc.Ops, Op{K: "frame", T: 20 + r.n(nnodes), P: r.n(10), M: r.n(4), I: r.n(16), N: r.n(64), D: r.weighted([]int{6, 4, 4, 3, 3, 2, 2, 1, 1, 2}), X: r.pick(0, 0, 0, 1)})
 		}
 	}
 	// faults on the wire
@@ -243,7 +243,7 @@ func runConc9(e *exec) {
 				return 0, nil
 			})
 		case "frame":
-			if o.X == 1 {
+			if o.X == 1 || o.P%10 == 9 {
 				simrt.Sleep(int64(time.Minute) - simrt.Now()%int64(time.Minute))
 				if isClosing() {
 					return
@@ -253,7 +253,16 @@ func runConc9(e *exec) {
 			pr["frame"]++
 			zero := netip.MustParseAddr("0.0.0.0")
 			bc := netip.MustParseAddr("255.255.255.255")
-			switch o.P % 9 {
+			switch o.P % 10 {
+			case 9:
+				// a burst at the purge tick: every client from its usual and from a second address
+				// (known hosts take the read-locked fast path, new ones the write lock), while purge
+				// is marking silent hosts offline
+				for k := 0; k < 8; k++ {
+					cm := clientMAC(k)
+					a.inject(i, "ip4", 0, fb.Eth(u.MACs[world.MRouter], cm, 0x0800, fb.IPv4(clientIP(k%4+(k/4+o.I)%2), u.RouterIP, 17, 64, 1, fb.UDP(4000, 4001, []byte("b")))))
+				}
+				pr["frame_burst_at_tick"]++
 			case 0:
 				a.inject(i, "ip4", 0, fb.Eth(u.MACs[world.MRouter], m, 0x0800, fb.IPv4(clientIP(o.M+o.I%2), u.RouterIP, 17, 64, 1, fb.UDP(4000, 4001, []byte("d")))))
 			case 1:
